@@ -37,7 +37,7 @@ ASSUMPTIONS = c01.ASSUMPTIONS + [
     "corpus signatures were pinned on the tree after the fix: commits recorded in known_findings.json",
 ]
 PROBES = ["variant_hashseed", "variant_cwd", "variant_moved_tree", "variant_symlink_tree", "variant_store_kind",
-          "variant_extra_debug", "variant_graph_export", "variant_prehistory>=2", "variant_after_failed_eval",
+          "variant_extra_debug", "variant_graph_export", "variant_reload", "variant_prehistory>=2", "variant_after_failed_eval",
           "corpus_program_checked", "base_prehistory", "peer_process_recommits"]
 PRELOAD = []
 
@@ -60,6 +60,8 @@ def gen_case(streams, tier, avoid):
     nv = v.randint(3, 7)
     variants = []
     kinds = ["hashseed", "hashseed", "cwd", "moved", "symlink", "store", "debug", "graph", "prehistory", "prehistory"]
+    if feat.get("ctext"):
+        kinds += ["reload", "reload"]
     for _ in range(nv):
         k = v.choice(kinds)
         var = {"kind": k}
@@ -147,6 +149,13 @@ def _cmds(prog, entry, srcdir, store, root, var):
              "options": options, "cwd": var.get("cwd")}]
     f = prog["funcs"][entry]
     ename = ir.modname(prog, f["mod"]) + ":" + entry
+    if var.get("kind") == "reload":
+        # before anything that the compared evaluation may load from the store is produced: evaluate under the other
+        # text, rewrite the files, reload
+        cmds.append({"cmd": "eval", "entry": ename, "style": "eval", "options": {}})
+        files = {rel: text for rel, text in ir.render(prog).items() if rel.startswith(prog["pkg"][0] + "/") and rel.endswith(".py")
+                 and not rel.endswith("__init__.py")}
+        cmds.append({"cmd": "reload", "srcdir": srcdir, "files": files, "modules": list(reversed(mods))})
     for be in var.get("_base_pre", []):
         bf = prog["funcs"][be]
         cmds.append({"cmd": "eval", "entry": ir.modname(prog, bf["mod"]) + ":" + be, "style": "eval", "options": {}})
@@ -194,6 +203,15 @@ def _run_variant(prog, entry, root, idx, var):
     elif var.get("kind") == "symlink":
         srcdir = os.path.join(root, f"link{idx}")
         os.symlink(tree, srcdir)
+    elif var.get("kind") == "reload":
+        # the process starts on a tree whose functions carry another comment text (same lines, same code), evaluates,
+        # then the files are rewritten with the compared text and the modules are reloaded
+        srcdir = os.path.join(root, f"reload{idx}")
+        other = ir.clone(prog)
+        for g in other["funcs"].values():
+            if g.get("ctext") is not None:
+                g["ctext"] = int(g["ctext"]) + 2
+        write_tree(srcdir, ir.render(other))
     v = dict(var)
     v["_base_pre"] = [e for e in (var.get("_base") or []) if e in prog["funcs"]]
     if var.get("kind") == "cwd":
@@ -313,7 +331,7 @@ def run_case(case):
             k = var["kind"]
             probe({"hashseed": "variant_hashseed", "cwd": "variant_cwd", "moved": "variant_moved_tree",
                    "symlink": "variant_symlink_tree", "store": "variant_store_kind", "debug": "variant_extra_debug",
-                   "graph": "variant_graph_export", "prehistory": "variant_prehistory>=2"
+                   "graph": "variant_graph_export", "reload": "variant_reload", "prehistory": "variant_prehistory>=2"
                    if len(var.get("pre", [])) >= 2 else "variant_prehistory<2"}[k])
             if var.get("hashseed"):
                 if env["hash_a"] == env0["hash_a"]:
